@@ -2,6 +2,7 @@
 import subprocess, re
 from common import run_lines
 from tracecheck import run_traces
+from lanetrace import forced
 
 META = {
     "text": "Lean theorems over a model of a stream read operation of io.c (buffer sizing, read() outcome, deliver_data flags, stream-handler result switch, dispose) "
@@ -198,6 +199,8 @@ def run(ctx):
                r"explained-by-IoCh.exec (\d+)", "L-trace io barrier", "iobar", timeout=200)
     # peer hang-up under the stream sources of a channel: the sources of a hung-up descriptor (F27)
     run_traces(ctx, "c16_hangup", [[ctx.seed * 10 + 7, 1000 if ctx.thorough else 150]], None, None, "L-api hang-up", "hangup", timeout=600)
+    # known finding F31: a zero-length operation overtakes an earlier operation of its direction that is still waiting
+    forced(ctx, "f31_zero_length_order", "F31", "io:order:zero-length-overtakes:forced-F31", "F31")
     # cleanup orchestration: the recorded history of the descriptor entry's close queue (suspensions / resumptions, handler calls,
     # cleanup handlers) replayed through IoHold.astep; the cleanup clause evaluated on the same runs
     run_traces(ctx, "tr_iohold", [[ctx.seed * 10 + i, 150 if ctx.thorough else 30] for i in range(4 if ctx.thorough else 2)], "iohold",
